@@ -241,6 +241,12 @@ func runC19(t *testing.T, sc c19Scenario) verdict {
 			if r.Err == nil {
 				vs = append(vs, sim.Violation{Key: "garbage-accepted-as-number", Msg: fmt.Sprintf("%s: value %q", desc, r.Out)})
 			}
+		case sc.Mode == "grandchild-holds-stdout" && r.Err == nil:
+			// the command itself exited 0 in time and printed "1"; a child it left behind holds the
+			// pipe. "Either the command's trimmed output or an error": its own output is acceptable.
+			if sc.Via == "exec" && strings.TrimSpace(r.Out) != "1" {
+				vs = append(vs, sim.Violation{Key: "success-with-wrong-output", Msg: fmt.Sprintf("%s: output %q, the command printed 1", desc, clip(r.Out))})
+			}
 		default:
 			if r.Err == nil {
 				key := "failure-without-error"
